@@ -299,7 +299,7 @@ impl Property for C03 {
         ]
     }
     fn cases(tier: Tier) -> u64 {
-        tier.pick(300_000, 5_000_000)
+        tier.pick(900_000, 5_000_000)
     }
     fn strategy(_tier: Tier) -> BoxedStrategy<Spec> {
         let general = (any::<bool>(), related_artifacts())
